@@ -502,9 +502,31 @@ class Interp:
                         out.append((arms[0], s_f))
                         out.append((t["otherwise"], s_t))
                     else:
-                        for v, tb in t["arms"]:
-                            out.append((tb, st.copy()))
-                        out.append((t["otherwise"], st.copy()))
+                        # switch on an integer value (`match n % 128 { 0 => .., partial => .. }`): arm v
+                        # learns x == v; the default arm learns x != v for every listed v (as x <= v-1
+                        # or x >= v+1: two states)
+                        xl = self.operand_lin(st, x) if x.get("k") in ("copy", "move") else None
+                        if xl is not None and not L.lin_is_const(xl):
+                            for v, tb in t["arms"]:
+                                s_v = st.copy()
+                                s_v.cons.append(L.eq(xl, L.lin_const(v)))
+                                out.append((tb, s_v))
+                            rest = [st.copy()]
+                            for v, tb in t["arms"]:
+                                nxt = []
+                                for s_r in rest:
+                                    lo = s_r.copy()
+                                    lo.cons.append(L.ge(L.lin_const(v - 1), xl))
+                                    hi = s_r.copy()
+                                    hi.cons.append(L.ge(xl, L.lin_const(v + 1)))
+                                    nxt += [s_ for s_ in (lo, hi) if s_.feasible()]
+                                rest = nxt[:8]
+                            for s_r in rest:
+                                out.append((t["otherwise"], s_r))
+                        else:
+                            for v, tb in t["arms"]:
+                                out.append((tb, st.copy()))
+                            out.append((t["otherwise"], st.copy()))
                 elif k == "return":
                     exits.append((b, st))
             for tb, st in out:
